@@ -48,9 +48,28 @@ class Plane:
         self.solves = []        # (sim_time, trial-independent index) per call
         self.wn = None
         self.sim = None
+        self.audit = False      # compare the incremental model with a fresh build at every solve
+        self.stale = []
+        self.kw = {}
+
+    def _audit(self, model):
+        """the incrementally updated model must be the model a fresh build gives for the network's current state
+        (same rows, same expressions, same parameter values): a missed or mis-registered update shows here"""
+        fresh, _ = hyd.create_hydraulic_model(wn=self.wn, HW_approx=self.kw.get('HW_approx', 'default'))
+        a, b = model_signature(model), model_signature(fresh)
+        for k_ in sorted(set(a) | set(b)):
+            if a.get(k_) != b.get(k_):
+                va, vb = a.get(k_), b.get(k_)
+                if isinstance(va, float) and isinstance(vb, float) and abs(va - vb) <= 1e-9 * max(1.0, abs(va), abs(vb)):
+                    continue
+                self.stale.append('at t=%s the model row/parameter %s is %s, a model built from the current network state has %s' % (
+                    self.wn.sim_time, k_, _short(va), _short(vb)))
+                return
 
     def _solver_helper(self, model, solver, solver_options):
         model.set_structure()      # as the real _solver_helper does: a model that is not square is refused here
+        if self.audit and not self.stale:
+            self._audit(model)
         k = self.calls
         self.calls += 1
         self.solves.append(self.wn.sim_time)
@@ -68,10 +87,43 @@ class Plane:
         self.solves = []
         self.last_q = 0.0
         self.tank_q = 0.0
+        self.stale = []
+        self.kw = kw
         self.sim = wntr.sim.WNTRSimulator(wn)
         with warnings.catch_warnings():
             warnings.simplefilter('ignore')
             return self.sim.run_sim(**kw)
+
+
+def _short(v):
+    v = 'absent' if v is None else str(v)
+    return v if len(v) < 160 else v[:157] + '...'
+
+
+def model_signature(m):
+    """{name: text or value} for every constraint, parameter and variable of an aml model"""
+    import wntr.sim.aml.aml as aml
+    import wntr.sim.aml.expr as expr
+    out = {}
+    for attr, val in vars(m).items():
+        if attr.startswith('_'):
+            continue
+        if isinstance(val, aml.Constraint):
+            out['con:' + attr] = str(val.expr)
+        elif isinstance(val, aml.ConstraintDict):
+            for k, c in val.items():
+                out['con:%s[%s]' % (attr, k)] = str(c.expr)
+        elif isinstance(val, aml.ParamDict):
+            for k, p_ in val.items():
+                v = p_.value
+                out['param:%s[%s]' % (attr, k)] = float(v) if isinstance(v, (int, float)) else 'symbolic'
+        elif isinstance(val, aml.VarDict):
+            for k in val:
+                out['var:%s[%s]' % (attr, k)] = 'var'
+        elif isinstance(val, expr.Param):
+            v = val.value
+            out['param:' + attr] = float(v) if isinstance(v, (int, float)) else 'symbolic'
+    return out
 
 
 def _get_results(wn, results, node_res, link_res):
